@@ -3,7 +3,7 @@
 import json, os
 HERE = os.path.dirname(os.path.dirname(os.path.abspath(__file__)))
 d = json.load(open(os.path.join(HERE, "known_findings.json")))
-esc = lambda s: str(s).replace("|", "\\|").replace("\n", "⏎")
+esc = lambda s: "".join(ch if ch >= " " or ch == "\t" else f"\\x{ord(ch):02x}" for ch in str(s).replace("|", "\\|").replace("\r\n", "␍⏎").replace("\n", "⏎").replace("\r", "␍"))
 fixed = ["| id | properties | witness | mechanism | commit(s) |", "|---|---|---|---|---|"]
 opened = ["| id | properties | witness | mechanism | why not repaired |", "|---|---|---|---|---|"]
 for e in d["findings"]:
